@@ -3,7 +3,7 @@
    inputs and each returned activity is compared
      (i)  with the code-shaped model expression, allowance 2^-30 * M + 2^-1074, M = magnitude of the
           terms the code adds/subtracts (validates the model), and
-     (ii) with the closed-form solution of the reaction chain, allowance 2^-30 * |solution| + 2^-1074
+     (ii) with the closed-form solution of the reaction chain, allowance 2^-30 * |solution| + 2^-1074 (1 + |solution at removal|)
           ("to within double-precision rounding of that solution": cancellation inside the code
           is not excused).
    Both comparisons are sign decisions on rigorous enclosures (Model/ActEval.v); a failed (ii) is
@@ -49,11 +49,15 @@ Definition verdict_str (v : verdict) : string :=
 Definition all_Q (l : list pyval) : option (list Q) :=
   fold_right (fun v acc => match py_Q v, acc with Some q, Some r => Some (q :: r) | _, _ => None end) (Some []) l.
 
-(* one value *)
+(* one value.  Allowance: 2^-30 |scale| + 2^-1074 (1 + |activity at removal|): when the decay factor
+   exp(-lam t) is itself a subnormal double its half-ulp error is multiplied by the activity. *)
+Definition slack_e (py : Q) (v scale a_end : expr) : expr :=
+  ESub (EAdd (EMul (ECst (D2Q 1 TOL)) (EAbs scale)) (EMul (ECst FLOOR) (EAdd (ECst 1) (EAbs a_end))))
+       (EAbs (ESub (ECst py) v)).
 Definition cmp_model (py : Q) (a m lam : expr) (ti : Q) : bool :=
-  is_ge0 (sign_of (slack TOL py (rest_model a lam ti) (rest_model m lam ti) FLOOR)).
+  is_ge0 (sign_of (slack_e py (rest_model a lam ti) (rest_model m lam ti) a)).
 Definition cmp_spec (py : Q) (spec : expr) (thalf ti : Q) : sgn :=
-  let s := rest_spec spec thalf ti in sign_of (slack TOL py s s FLOOR).
+  let s := rest_spec spec thalf ti in sign_of (slack_e py s s spec).
 
 Fixpoint zipQ (a b : list Q) : list (Q * Q) :=
   match a, b with x :: r, y :: s => (x, y) :: zipQ r s | _, _ => [] end.
